@@ -36,7 +36,7 @@ import (
 //
 //	<FS>/file/<content>/s<slots>/<q|t>   content: empty | abc | abcdef | the name of a start state with a history (start.go);
 //	                                     q = the quick flag sets, t = all 48
-//	<FS>/dir/k<entries>
+//	<FS>/dir/k<entries>/m<modifications of the directory per history>
 func factory(trace bool) func(string) bfs.System {
 	return func(name string) bfs.System {
 		verifrt.SetMode(verifrt.ModeSeq)
@@ -73,10 +73,11 @@ func factory(trace bool) func(string) bfs.System {
 			s.ops = buildFileOps(n, parts[4] == "t")
 
 			return s
-		case len(parts) == 3 && parts[1] == "dir":
+		case len(parts) == 4 && parts[1] == "dir":
 			k, _ := strconv.Atoi(strings.TrimPrefix(parts[2], "k"))
+			m, _ := strconv.Atoi(strings.TrimPrefix(parts[3], "m"))
 
-			return &dsys{name: name, fsName: parts[0], k: k, R: R, dp: R + "/d", ops: buildDirOps(), trace: trace}
+			return &dsys{name: name, fsName: parts[0], k: k, maxMods: m, R: R, dp: R + "/d", ops: buildDirOps(k, m), trace: trace}
 		}
 
 		fmt.Fprintln(os.Stderr, "c02: unknown system", name)
@@ -117,14 +118,15 @@ func jobs(tier string, depth int) []job {
 		}
 	}
 
-	dd := 4
+	// dm: modifications of the directory per history (dir.go)
+	dd, dm := 4, 1
 	if tier == "thorough" {
-		dd = 6
+		dd, dm = 6, 3
 	}
 
 	for _, f := range fss {
 		for k := 0; k <= 4; k++ {
-			js = append(js, job{system: fmt.Sprintf("%s/dir/k%d", f, k), depth: dd, group: "dir"})
+			js = append(js, job{system: fmt.Sprintf("%s/dir/k%d/m%d", f, k, dm), depth: dd, group: fmt.Sprintf("dir-upto%dmods", dm)})
 		}
 	}
 
@@ -473,7 +475,7 @@ func main() {
 			"start states with a history are reached by a fixed prologue per system (not enumerated): 3 of the 10 prologues in the quick tier with one handle slot, all 10 in the thorough tier with one slot (one call deeper) and with two slots; a difference between the two sides during the prologue is reported as a violation of kind start-state and that system is not explored further",
 			"only R/f is opened; R/g is observed through ReadFile/Stat after every call; uid/gid are not compared (Chown is called with the root ids)",
 			"values handed out earlier (kept.go): os.File.Stat / os.Stat / os.Lstat / File.ReadDir return snapshots, so the emulated side is compared with itself (what a kept value answered when it was returned against what it answers after every later call of the same history); a kept fs.DirEntry is read again through Name/IsDir/Type only (package os allows Info() to look at the file at the time of the call), the fs.FileInfo its Info() gave when the entry was delivered is kept as a value of its own; values are kept per instance since its reset: along the history that reaches a state and along the calls tried from that state that leave the kernel-side state unchanged (the instance is rebuilt after a call that changes it); the kernel side keeps nothing (values of package os are copies)",
-			"directory handles: kernel entry order is unspecified, so batch sizes, error kinds, no-duplicate, membership, type and union are compared, not order; after a Create/Remove a handle that had started reading is checked only for the emulation-internal protocol clauses (kernel answers are file-system specific there)",
+			"directory handles (systems <FS>/dir/k<entries>/m<modifications>): a directory of k <= 4 entries, two handles, ReadDir(n)/Readdirnames(n) with n from {-1,0,1,2,5}, Close, and at most m modifications of the directory per history (1 in the quick tier, 3 in the thorough tier) from: WriteFile of a name that sorts before (c) / after (z, only when m > 1) every entry, Remove of the first (e1) / the last entry, Rename of e1 to z - so that names before and behind the cursor of a listing in progress come and go on both sides (the emulation lists by name, tmpfs by age); kernel entry order is unspecified, so batch sizes, error kinds, no-duplicate, membership, type and union are compared, not order; after a modification a handle that had started reading is not compared with the kernel (its answers are file-system specific there) but checked for the emulation-internal protocol clauses and for the rule of kind whole-listing: within the first listing of a handle (the pieces of ReadDir(n) only or Readdirnames(n) only, n > 0, from its first read call to the first io.EOF) every entry that was in the directory from the first piece to io.EOF without being removed, renamed away or replaced is delivered exactly once; entries that came or went meanwhile may or may not appear; handles that mix the two calls or use n <= 0 and calls after the first io.EOF are not judged by that rule (re-delivery there is the listed finding KF-C02-004); the rule was run once against the os.File handles of the same histories (depth 4, 2 modifications, k = 0..4) and held on all of them; the state key of the directory systems includes the state of that listing on the emulated handle",
 			"random long histories (second half of the quantifier) are sampling and are not run; replaced by the exhaustive bound",
 		},
 		Violations: rep.NewCount(),
